@@ -18,13 +18,15 @@ func init() {
 	register(&Property{
 		ID:    "C03",
 		Level: "exploration",
-		Rule: "generated rate sets (1-3 periods from 1s..1h incl. fractional seconds, average 1..100, burst 1..5*average) and arrival histories per source on the frozen clock (floods at 10-1000x the rate sustained for many entry lifetimes, idle gaps around the entry TTL and at whole-second boundaries, sub-token trickles, mixes, several sources, amounts 0..burst+1) through TokenLimiter.ServeHTTP; " +
+		Rule: "part flip: one source whose rate plan changes from request to request (ExtractRates: same period, different average and burst; floods, idle gaps, strict alternation): in every interval admitted <= largest burst + T/(shortest token time) + 1; " +
+			"generated rate sets (1-3 periods from 1s..1h incl. fractional seconds, average 1..100, burst 1..5*average) and arrival histories per source on the frozen clock (floods at 10-1000x the rate sustained for many entry lifetimes, idle gaps around the entry TTL and at whole-second boundaries, sub-token trickles, mixes, several sources, amounts 0..burst+1) through TokenLimiter.ServeHTTP; " +
 			"oracle = the statement's bound evaluated in exact integer arithmetic for every sub-interval of every source's admission log and every rate; non-trivial = history with >=1 rejection followed by >=1 admission and spanning > 1 entry lifetime; distinct by (rates, arrival script)",
 		Assumptions: []string{"frozen library clock (hook)", "only configurations inside the statement's proviso are decided: periods >= 1s, burst <= 5*average, sources <= capacity"},
 		Parts: []Part{
 			{Name: "bound", Shards: 12, Fn: c03Bound},
 			{Name: "conc", Race: true, Shards: 4, Fn: c03Conc},
 			{Name: "reconfig", Shards: 8, Fn: c03Reconfig},
+			{Name: "flip", Shards: 4, Fn: c03Flip},
 		},
 	})
 }
@@ -629,4 +631,108 @@ func c03Reconfig(c *Ctx) {
 		}
 	})
 	c.Require("reconfig_histories_nontrivial", 2)
+}
+
+// c03Flip: the rate plan of a source changes from request to request (ExtractRates keyed on the endpoint / tier: same period,
+// different average and burst). Whatever the order of plans, the source never gets more than the most generous of its plans
+// allows: in every interval, admitted <= largest burst + T/(shortest token time) + 1.
+func c03Flip(c *Ctx) {
+	c.Cases("flip", c.N(300, 8000), func(i int, r *rand.Rand) {
+		freeze(baseTime.Add(time.Duration(r.Int64N(1e9))))
+		defer unfreeze()
+		period := pick(r, []time.Duration{time.Second, time.Second, 10 * time.Second, time.Minute})
+		nPlans := 2 + r.IntN(2)
+		plans := make([]rateSpec, nPlans)
+		loosest := rateSpec{Period: period}
+		for k := range plans {
+			avg := int64(1 + r.IntN(30))
+			if k > 0 && r.IntN(2) == 0 {
+				avg = plans[0].Average + int64(r.IntN(3)) - 1 // nearly the same plan
+				if avg < 1 {
+					avg = 1
+				}
+			}
+			plans[k] = rateSpec{period, avg, avg + r.Int64N(4*avg+1)}
+			if avg > loosest.Average {
+				loosest.Average = avg
+			}
+			if plans[k].Burst > loosest.Burst {
+				loosest.Burst = plans[k].Burst
+			}
+		}
+		sets := make([]*ratelimit.RateSet, nPlans)
+		for k := range plans {
+			sets[k] = mkRateSet([]rateSpec{plans[k]})
+		}
+		admitted := 0
+		tl, err := ratelimit.New(http.HandlerFunc(func(http.ResponseWriter, *http.Request) { admitted++ }), hdrExtractor, mkRateSet([]rateSpec{{time.Second, 1, 1}}),
+			ratelimit.ExtractRates(ratelimit.RateExtractorFunc(func(req *http.Request) (*ratelimit.RateSet, error) {
+				k, _ := strconv.Atoi(req.Header.Get("X-Plan"))
+				return sets[k], nil
+			})))
+		if err != nil {
+			c.Violation("constructor", err.Error(), nil)
+			return
+		}
+		tau := time.Duration(int64(period) / loosest.Average)
+		var log []admitEv
+		var t time.Duration
+		nreq := 400 + r.IntN(c.N(1200, 4000))
+		mode, left := 0, 0
+		rejected := 0
+		for q := 0; q < nreq; q++ {
+			if left == 0 {
+				mode, left = r.IntN(4), 20+r.IntN(200)
+			}
+			left--
+			var step time.Duration
+			switch mode {
+			case 0: // flood, many requests per token time
+				step = time.Duration(r.Int64N(int64(tau)/8 + 1))
+			case 1: // about the rate
+				step = time.Duration(r.Int64N(2*int64(tau) + 1))
+			case 2: // idle gaps of a few token times
+				step = time.Duration(r.Int64N(6*int64(tau) + 1))
+			default: // strict alternation at a fixed pace of a token time or two
+				step = tau + time.Duration(r.Int64N(int64(tau)+1))
+			}
+			advance(step)
+			t += step
+			plan := r.IntN(nPlans)
+			if mode == 3 {
+				plan = q % nPlans
+			}
+			amt := int64(1)
+			if r.IntN(10) == 0 {
+				amt = 1 + r.Int64N(plans[plan].Burst)
+			}
+			req := httptest.NewRequest("GET", "http://x.test/", nil)
+			req.Header.Set("X-Src", "tenant")
+			req.Header.Set("X-Plan", strconv.Itoa(plan))
+			req.Header.Set("X-Amt", strconv.FormatInt(amt, 10))
+			before := admitted
+			tl.ServeHTTP(httptest.NewRecorder(), req)
+			if admitted == before+1 {
+				log = append(log, admitEv{int64(t), amt})
+			} else {
+				rejected++
+			}
+		}
+		c.Eval()
+		c.Count("flip_requests", int64(nreq))
+		desc := map[string]any{"plans": plans, "requests": nreq, "span": t.String()}
+		if ok, a, b, ex := checkBound(log, loosest); !ok {
+			var sum int64
+			for _, e := range log[a : b+1] {
+				sum += e.amt
+			}
+			c.Violation("flip/bound-exceeded", sfmt("one source limited under per-request plans %v (same period): admitted %d in the interval [%v,%v] of length %v; even the most generous plan (%d per %v, burst %d) allows burst+T/(period/average)+1, exceeded by %s", plans, sum, time.Duration(log[a].t), time.Duration(log[b].t), time.Duration(log[b].t-log[a].t), loosest.Average, period, loosest.Burst, ex), desc)
+			return
+		}
+		if rejected > 0 && len(log) > int(loosest.Burst) {
+			c.Nontrivial(sfmt("flip/%v/%d", plans, nreq))
+			c.Count("flip_histories_nontrivial", 1)
+		}
+	})
+	c.Require("flip_histories_nontrivial", 2)
 }
